@@ -3,6 +3,7 @@
 package ops
 
 import (
+	"errors"
 	"fmt"
 	"os"
 	"strconv"
@@ -39,6 +40,20 @@ func (o Op) String() string {
 		return "delete " + o.P
 	case "move":
 		return fmt.Sprintf("move %s %s", o.P, o.Q)
+	case "hopen":
+		return fmt.Sprintf("h%d=open %s %s", o.H, o.P, FlagString(o.N))
+	case "hread":
+		return fmt.Sprintf("h%d.read(%d)", o.H, o.N)
+	case "hreadall":
+		return fmt.Sprintf("h%d.readall", o.H)
+	case "hwrite":
+		return fmt.Sprintf("h%d.write(%s)", o.H, strconv.Quote(o.C))
+	case "hseek":
+		return fmt.Sprintf("h%d.seek(%d)", o.H, o.N)
+	case "hsync":
+		return fmt.Sprintf("h%d.sync", o.H)
+	case "hclose":
+		return fmt.Sprintf("h%d.close", o.H)
 	case "mkdir", "mkdirall", "remove", "removeall", "stat", "list", "read":
 		return fmt.Sprintf("%s %s", o.K, o.P)
 	case "put":
@@ -114,8 +129,17 @@ func Content(spec string) []byte {
 			return b
 		}
 	}
+	if strings.HasPrefix(spec, "H:") {
+		// a payload shaped like a tar header: a valid ustar block describing an (empty) entry of that name
+		var buf bytes.Buffer
+		tw := tar.NewWriter(&buf)
+		_ = tw.WriteHeader(&tar.Header{Typeflag: tar.TypeReg, Name: spec[2:], Size: 0, Mode: 0o644, Format: tar.FormatUSTAR})
+		return append([]byte(nil), buf.Bytes()[:512]...)
+	}
 	return []byte(spec)
 }
+
+var ErrNoHandle = errors.New("harness: no such handle (call skipped)")
 
 var (
 	T1 = time.Unix(1234567891, 0).UTC()
@@ -298,6 +322,47 @@ func ExecImpl(s *rig.Stack, o Op) error {
 		return s.WriteOps.Delete(o.P)
 	case "move":
 		return s.WriteOps.Move(o.P, o.Q)
+	case "hopen":
+		f, err := fsys.OpenFile(o.P, o.N, 0o644)
+		if err != nil {
+			return err
+		}
+		if s.Handles == nil {
+			s.Handles = map[int]*rig.Handle{}
+		}
+		s.Handles[o.H] = &rig.Handle{F: f, Path: o.P, Flags: o.N}
+		return nil
+	case "hread", "hreadall", "hwrite", "hsync", "hclose", "hseek":
+		h := s.Handles[o.H]
+		if h == nil {
+			return ErrNoHandle
+		}
+		switch o.K {
+		case "hread":
+			buf := make([]byte, o.N)
+			_, err := h.F.Read(buf)
+			h.Reads++
+			if err == io.EOF {
+				return nil
+			}
+			return err
+		case "hreadall":
+			_, err := rig.ReadAll(h.F)
+			h.Reads++
+			return err
+		case "hwrite":
+			_, err := h.F.Write(Content(o.C))
+			h.Writes++
+			return err
+		case "hseek":
+			_, err := h.F.Seek(int64(o.N), 0)
+			return err
+		case "hsync":
+			return h.F.Sync()
+		default:
+			delete(s.Handles, o.H)
+			return h.F.Close()
+		}
 	case "stat":
 		_, err := fsys.Stat(o.P)
 		return err
